@@ -423,6 +423,51 @@ def gen_contra_model(rng):
             "elim_graph": {}, "names": sorted(val), "contra": True}
 
 
+def gen_forced_zero_model(rng):
+    """two algebraic variables aliased (either sign) to a NON-ELIMINABLE anchor w (der(x), state, input,
+    unset parameter) plus an alias equation between them that contradicts those signs, so that the anchor
+    is forced to zero (`a = w; b = w; a + b = 0` is really 2*w = 0).  Regular when the anchor is der(x);
+    for a state / input / parameter anchor the third equation is a constraint on a known (not square, the
+    balance must still be unchanged).  Every value is 0."""
+    kind = rng.choice(["der", "der", "state", "input", "param"])
+    val = {"time": dy(rng, 0, 3)}
+    decl, eqs = [], []
+    if kind in ("der", "state"):
+        decl.append("Real x1;")
+        val["x1"] = F(0) if kind == "state" else dy(rng, nonzero=True)
+        w = "der(x1)" if kind == "der" else "x1"
+        val["der(x1)"] = F(0) if kind == "der" else dy(rng)
+        if kind == "state":
+            eqs.append("der(x1) = %s" % num(val["der(x1)"]))
+    elif kind == "input":
+        decl.append("input Real u1;")
+        w = "u1"
+    else:
+        decl.append("parameter Real p1;")
+        w = "p1"
+    val[w] = F(0)
+    f1, n1 = rng.choice(ALIAS_FORMS)
+    f2, n2 = rng.choice(ALIAS_FORMS)
+    f3 = rng.choice([f for f in ALIAS_FORMS if f[1] == (n1 == n2)])[0]    # a = [-]b contradicting n1, n2
+    a, b = ("a1", "a2") if rng.random() < 0.5 else ("a2", "a1")
+    eqs += [f1 % {"n": "a1", "w": w}, f2 % {"n": "a2", "w": w}, f3 % {"n": a, "w": b}]
+    val["a1"] = val["a2"] = F(0)
+    decl += ["Real a1;", "Real a2;"]
+    avail = ["a1", "a2"]
+    for i in range(3, rng.randint(3, 4) + 1):
+        n = "a%d" % i
+        decl.append("Real %s;" % n)
+        v, c = rng.choice(avail), dy(rng, nonzero=True)
+        eqs.append("%s = %s * %s + 1.0" % (n, num(c), v))
+        val[n] = c * val[v] + 1
+        avail.append(n)
+    rng.shuffle(eqs)
+    text = "model M\n  %s\nequation\n  %s;\nend M;\n" % ("\n  ".join(decl), ";\n  ".join(eqs))
+    return {"text": text, "cls": "M", "val": val, "kinds": {"forced_zero_" + kind: 1},
+            "n_unknowns": len(avail) + (1 if kind in ("der", "state") else 0), "elim_graph": {},
+            "names": sorted(val), "nonsquare": kind not in ("der",)}
+
+
 def gen_alias_options(rng):
     o = {"detect_aliases": True,
          "eliminate_constant_assignments": rng.random() < 0.5,
@@ -785,6 +830,13 @@ def build_cases(ctx):
         mdl = gen_alias_model(rng)
         for _ in range(ctx.scaled(3, 4)):
             cases.append(make_case(rng, mdl, gen_alias_options(rng)))
+    # sign-forcing alias equations between two variables already aliased to one non-eliminable anchor
+    for _ in range(ctx.scaled(16, 120)):
+        mdl = gen_forced_zero_model(rng)
+        c = make_case(rng, mdl, gen_alias_options(rng))
+        if mdl["nonsquare"]:
+            c["meta"]["singular"] = True      # one constraint on a known: skips the generator's squareness test only
+        cases.append(c)
     # multi-pass stream: aliases that only appear in pass 2+ (iterative_simplification; in the correspondence)
     for _ in range(ctx.scaled(24, 250)):
         mdl = gen_alias_model(rng, late=True)
